@@ -39,7 +39,19 @@ func (s *lexSession) delivered() string {
 
 func (s *lexSession) done() bool { return s.state != 0 && s.post >= s.wantPost }
 
+// hotOffsets lexes x with the definition under test to learn token boundaries (only a bias for
+// fault placement).  It runs under its own step cap: a definition that does not terminate must be
+// reported by the clauses, not hang the planning.
 func hotOffsets(def lexer.Definition, x string) (ends []int) {
+	simrt.RunInline(func() {
+		simrt.OpBegin(int64(200000 + 2000*len(x)))
+		defer simrt.OpEnd(0)
+		ends = hotOffsetsUnguarded(def, x)
+	})
+	return ends
+}
+
+func hotOffsetsUnguarded(def lexer.Definition, x string) (ends []int) {
 	defer func() { recover() }()
 	var lx lexer.Lexer
 	var err error
